@@ -153,6 +153,7 @@ func runListen(t *testing.T, out *vfh.Out, script []lstRead) {
 			impl.I(int64(w))
 		}
 		out.Line(c.String(), impl.String())
+		out.Flush()
 	})
 }
 
